@@ -18,6 +18,7 @@ from fractions import Fraction as Fraction_
 FLOAT_EXPRS = [("10 ** -3", [1, 1000]), ("3 ** -1", [1, 3]), ("2 ** -2", [1, 4]), ("1 / 10 ** 3", [1, 1000]), ("1e-3", [1, 1000]), ("(-2) ** 3", [-8, 1]),
                ("2.5e1", [25, 1]), ("0x10 / 0b100", [4, 1]), ("-(1 / 8)", [-1, 8]), ("(10 ** -3) * (10 ** 3)", [1, 1]), ("1.5 * (2 ** -1)", [3, 4]),
                ("(-3) ** -3", [-1, 27]), ("7 ** -2", [1, 49]), ("(1 / 3) ** 2", [1, 9]), ("(2 / 3) ** -2", [9, 4]), ("10 ** -1 + 10 ** -2", [11, 100]),
+               ("2 ** -52", [1, 2**52]), ("5 * 2 ** -74", [5, 2**74]), ("1 / 2 ** 90", [1, 2**90]), ("3 * 2 ** -60 + 1", [3 + 2**60, 2**60]), ("(2 ** -30) / 5 ** 9", [1, 2**30 * 5**9]),
                ("1_0.0_0", [10, 1]), (".5", [1, 2]), ("5.", [5, 1]), ("1E+2", [100, 1]), ("12e-1", [6, 5])]
 INT_EXPRS = [("2 ** 3", [8, 1]), ("10 ** 2 - 1", [99, 1]), ("(2 ** 4) / 2", [8, 1]), ("0x0F & 0b0110", [6, 1]), ("(1 + 2) * 3", [9, 1]), ("0o17 | 0x10", [31, 1]),
              ("6 ^ 3", [5, 1]), ("(2 ** -1) * 4", [2, 1]), ("10 % 4", [2, 1]), ("-(-7)", [7, 1]), ("+3", [3, 1]), ("(10 ** -2) * 300", [3, 1]),
